@@ -521,7 +521,12 @@ static void GC_Set(var self, var key, var val) {
 
 static void GC_Rem(var self, var key) {
   struct GC* gc = self;
-  if (not gc->running) { return; }
+  if (not gc->running and gc->freelist is NULL and not GC_Mem_Ptr(gc, key)) {
+    /* Objects allocated while stopped were never registered: delete them here.
+    ** (During the sweep of a teardown the pending list decides, as below.) */
+    dealloc(destruct(key));
+    return;
+  }
   GC_Rem_Ptr(gc, key);
   GC_Resize_Less(gc);
   gc->mitems = gc->nitems + gc->nitems / 2 + 1;
